@@ -185,9 +185,13 @@ def body(chk):
             rsc = [scen('rsc%d' % i, ['rsc%d.tag%d' % (i, j) for j in range(st)]) for i in range(nrule)]
             rule = tagsets.gherkin_node(prog, 'gherkin::Rule', 'rule', ['rule.tag%d' % j for j in range(rt)],
                                         {'scenarios': Obj('vec', items=tuple(rsc), ty='Vec<Scenario>')})
+            # a second rule (one scenario, own tags): rules are filtered one by one, each with its own tags
+            r2sc = [scen('r2sc0', ['r2sc0.tag%d' % j for j in range(st)])]
+            rule_b = tagsets.gherkin_node(prog, 'gherkin::Rule', 'ruleB', ['ruleB.tag%d' % j for j in range(rt)],
+                                          {'scenarios': Obj('vec', items=tuple(r2sc), ty='Vec<Scenario>')})
             feat = tagsets.gherkin_node(prog, 'gherkin::Feature', 'feat', ['feat.tag%d' % j for j in range(ft)],
                                         {'scenarios': Obj('vec', items=tuple(tops), ty='Vec<Scenario>'),
-                                         'rules': Obj('vec', items=(rule,) if nrule or True else (), ty='Vec<Rule>')})
+                                         'rules': Obj('vec', items=(rule, rule_b), ty='Vec<Rule>')})
             # run the REAL filter_run coroutine up to `features.map(<closure>)` to obtain the closure with its real environment
             CU = t.struct_fields('cucumber::Cucumber<W>')
             OP = t.struct_fields('cli::Opts<A, B, C>')
@@ -200,8 +204,10 @@ def body(chk):
 
             def grab(ex__, info, a, dty):
                 got['closure'] = a[1]
+                got['kind'] = info['method']
                 raise PathEnd('stop', 'map closure constructed')
             M.table['StreamExt::map'] = grab
+            M.table['StreamExt::filter_map'] = grab        # (a feature may also be dropped altogether: the closure yields None)
             co = ex_.call_body(outer[0], [cu, Lazy('I', 'input'), Lazy('F', 'user_filter')])
             cocell = Cell(co, name='coroutine')
             try:
@@ -213,8 +219,23 @@ def body(chk):
                 raise Inconclusive('filter_run did not reach features.map(..)')
             mapv = got['closure']
             inp = Adt('std::result::Result<gherkin::Feature, parser::Error>', {(0, 0): feat}, 0)
-            out = ex_.call_value(mapv, [inp])
-            return {'out': ex_.materialize(out), 'feat': feat, 'tops': tops, 'rsc': rsc, 'rule': rule}
+            out = ex_.materialize(ex_.call_value(mapv, [inp]))
+            dropped = False
+            if got.get('kind') == 'filter_map':
+                # the closure returns a future of Option<item>
+                if isinstance(out, Obj) and out.kind == 'future' and out.what == ('ready',):
+                    out = ex_.materialize(out.value)
+                else:
+                    co2 = Cell(out, name='filter_map future')
+                    r_ = ex_.materialize(M.poll_cell(ex_, co2, Ref(Cell(Lazy('Context', 'cx')), ()), 'Poll<?>'))
+                    if not ex_.branch(M.discr(ex_, r_) == bv(0)):
+                        raise Inconclusive('filter_map future pending')
+                    out = ex_.materialize(ex_.field_of(r_, 0, 0, 'Option<?>'))
+                if ex_.branch(M.discr(ex_, out) == bv(0)):
+                    dropped = True
+                else:
+                    out = ex_.materialize(ex_.field_of(out, 1, 0, 'Result<Feature, Error>'))
+            return {'out': out, 'dropped': dropped, 'feat': feat, 'tops': tops, 'rsc': rsc, 'rule': rule, 'r2sc': r2sc, 'rule_b': rule_b}
 
         def on_end(ex_, rec, mode=mode, shape=shape, ft=ft, rt=rt, st=st, M=M):
             kind, res, pc, dec = rec
@@ -225,22 +246,33 @@ def body(chk):
                 o.detail = '%s: %s' % (kind, res)
                 return
             out = res['out']
-            if not ex_.check(M.discr(ex_, out) == bv(0)) or ex_.check(M.discr(ex_, out) != bv(0)):
+            if not res.get('dropped') and (not ex_.check(M.discr(ex_, out) == bv(0)) or ex_.check(M.discr(ex_, out) != bv(0))):
                 o = ob('ok-feature-stays-ok')
                 o.verdict = 'violated'
                 return
-            f2 = ex_.materialize(ex_.field_of(out, 0, 0, 'gherkin::Feature'))
+            f2 = ex_.materialize(ex_.field_of(out, 0, 0, 'gherkin::Feature')) if not res.get('dropped') else None
             feat = res['feat']
 
             def accept(s, in_rule):
+                rname = None if not in_rule else ('rule' if in_rule is True else in_rule)
                 if 'name' in mode:
                     return z3.Bool('name_matches(%s.name)' % s.name)
                 if 'tags' in mode:
-                    tags = ['feat.tag%d' % j for j in range(ft)] + (['rule.tag%d' % j for j in range(rt)] if in_rule else []) + \
+                    tags = ['feat.tag%d' % j for j in range(ft)] + (['%s.tag%d' % (rname, j) for j in range(rt)] if rname else []) + \
                         ['%s.tag%d' % (s.name, j) for j in range(st)]
                     return tree_sem(shape, tags)
-                return z3.Bool('user_filter(%s)' % (('feat', 'rule' if in_rule else None, s.name),))
+                return z3.Bool('user_filter(%s)' % (('feat', rname, s.name),))
             terms = {}
+            if res.get('dropped'):
+                # the whole feature was withheld from the runner: right only if not one of its scenarios is accepted
+                o = ob('top-level-scenarios=exactly-the-accepted-in-order')
+                o.paths += 1
+                every = [(x, False) for x in res['tops']] + [(x, True) for x in res['rsc']] + [(x, 'ruleB') for x in res['r2sc']]
+                hit = [x.name for x, inr in every if ex_.check(accept(x, inr)) and not ex_.check(z3.Not(accept(x, inr)))]
+                if hit:
+                    o.verdict = 'violated'
+                    o.detail = 'the feature was dropped although %s are accepted (mode %s)' % (hit, mode)
+                return
 
             def survivors(vec):
                 return [x.name for x in ex_.materialize(vec).items]
@@ -272,12 +304,14 @@ def body(chk):
             rules2 = ex_.materialize(ex_.field_of(f2, None, F.index('rules'), 'Vec'))
             o = ob('rules-kept')
             o.paths += 1
-            if len(rules2.items) != 1:
+            if len(rules2.items) != 2:
                 o.verdict = 'violated'
-                o.detail = '%d rules after filtering' % len(rules2.items)
+                o.detail = '%d rules after filtering (2 before)' % len(rules2.items)
                 return
             r2 = ex_.materialize(rules2.items[0])
             check_list(ob('rule-scenarios=exactly-the-accepted-in-order'), survivors(ex_.field_of(r2, None, Rl.index('scenarios'), 'Vec')), res['rsc'], True)
+            r2b = ex_.materialize(rules2.items[1])
+            check_list(ob('rule-scenarios=exactly-the-accepted-in-order'), survivors(ex_.field_of(r2b, None, Rl.index('scenarios'), 'Vec')), res['r2sc'], 'ruleB')
             o = ob('rest-of-feature-untouched')
             o.paths += 1
             same = ex_.field_of(f2, None, F.index('tags'), 'Vec') is feat.fields[(None, F.index('tags'))] and \
@@ -339,7 +373,8 @@ def confirm(chk, bad):
              'tags10': lambda t: not ('wip' in t or 'slow' not in t),
              'tags11': lambda t: not ((not ('smoke' in t or 'wip' in t)) and 'slow' not in t)}
     scen = [('t_plain', False, []), ('t_wip', False, ['wip']), ('r_plain', True, []), ('r_wip', True, ['wip']), ('r_slow', True, ['slow']),
-            ('r_smoke', True, ['smoke'])]          # (a tag that the rule / the feature may carry as well: tags form a multiset)
+            ('r_smoke', True, ['smoke']),          # (a tag that the rule / the feature may carry as well: tags form a multiset)
+            ('q_wip', 'r2', ['wip']), ('q_plain', 'r2', [])]          # a second, untagged rule
     devs, n = [], 0
     for ln in out.splitlines():
         if not ln.startswith('CASE '):
@@ -351,7 +386,7 @@ def confirm(chk, bad):
         f = kv['filter']
         want = []
         for name, in_rule, st in scen:
-            tags = set(ft + (rt if in_rule else []) + st)
+            tags = set(ft + (rt if in_rule is True else []) + st)
             if f == 'closure':
                 ok = name.endswith('plain')
             elif f == 'name':
@@ -362,8 +397,10 @@ def confirm(chk, bad):
                 ok = exprs[f](tags)
             if ok:
                 want.append(name)
-        want.append('#rules=1#bg=true#tags=%s' % '+'.join(ft))
-        if kv['kept'].split(',') != want:
+        none_kept = not want
+        want.append('#rules=2#bg=true#tags=%s' % '+'.join(ft))
+        # (a feature left without any scenario may be handed to the runner or withheld: the property does not say)
+        if kv['kept'].split(',') != want and not (none_kept and kv['kept'] == ''):
             devs.append('%s | reference kept=%s' % (ln, ','.join(want)))
     for o in bad:
         if res is None or n == 0:
